@@ -148,27 +148,55 @@ def explore(fn, start, stop, event, init, step, roots=None, limit=200000):
     return exits
 
 
-def path_avoiding_edges(fn, prog, start, target, edge_ok):
+def path_avoiding_edges(fn, prog, start, target, edge_ok, constprop=False, avoid=()):
     """Is `target` reachable from `start` without taking a switch edge whose facts satisfy `edge_ok`?
     -> None when every path takes such an edge, else an example list of blocks.
-    (`edge_ok(facts)` gets the derived facts of one switch edge, see guards.edge_facts.)"""
+    (`edge_ok(facts)` gets the derived facts of one switch edge, see guards.edge_facts.)
+    constprop=True: boolean locals assigned a constant on the path (`flag = true` in one arm of a `matches!`, the result
+    of an inlined predicate helper) are remembered, and a later switch on such a local follows only the matching edge."""
     from . import guards
-    prev = {start: None}
-    dq = deque([start])
+    s0 = (start, frozenset())
+    prev = {s0: None}
+    dq = deque([s0])
     while dq:
-        b = dq.popleft()
+        state = dq.popleft()
+        b, known = state
         if b == target:
             path = []
-            while b is not None:
-                path.append(b)
-                b = prev[b]
+            while state is not None:
+                path.append(state[0])
+                state = prev[state]
             return list(reversed(path))
-        if fn.is_cleanup(b):
+        if fn.is_cleanup(b) or b in avoid:
             continue
+        kd = dict(known)
+        if constprop:
+            for st in fn.blocks[b]["st"]:
+                if st.get("k") == "=" and not st["p"][1]:
+                    r = st["r"]
+                    v = None
+                    if r[0] == "use" and r[1][0] == "k" and r[1][1].get("ty") == "bool":
+                        v = 1 if str(r[1][1].get("v")) == "1" else 0
+                    elif r[0] == "use" and r[1][0] in ("c", "m") and not r[1][1][1]:
+                        v = kd.get(r[1][1][0])
+                    if v is None:
+                        kd.pop(st["p"][0], None)
+                    else:
+                        kd[st["p"][0]] = v
+                elif st.get("k") == "=" and st["p"][0] in kd:
+                    kd.pop(st["p"][0], None)
         t = fn.blocks[b]["t"]
+        if t["k"] == "call" and t.get("dest") is not None:
+            kd.pop(t["dest"][0], None)
+        k2 = frozenset(kd.items())
         if t["k"] == "switch":
+            only = None
+            if constprop and t["discr"][0] in ("c", "m") and not t["discr"][1][1] and t["discr"][1][0] in kd and t.get("dty") == "bool":
+                only = kd[t["discr"][1][0]]
             by_succ = {}
             for s, lab in fn.succ(b):
+                if only is not None and ((only == 0) != (lab == 0)):
+                    continue
                 by_succ.setdefault(s, set()).add(lab)
             for s, labs in by_succ.items():
                 try:
@@ -177,12 +205,168 @@ def path_avoiding_edges(fn, prog, start, target, edge_ok):
                     facts = []
                 if edge_ok(facts):
                     continue
-                if s not in prev:
-                    prev[s] = b
-                    dq.append(s)
+                # the residual edge of a match that already listed every variant cannot be taken
+                if any(fa.kind == "variant" and fa.allowed is not None and len(fa.allowed) == 0 for fa in facts):
+                    continue
+                ns = (s, k2)
+                if ns not in prev:
+                    prev[ns] = state
+                    dq.append(ns)
         else:
             for s, _ in fn.succ(b):
-                if s not in prev:
-                    prev[s] = b
-                    dq.append(s)
+                ns = (s, k2)
+                if ns not in prev:
+                    prev[ns] = state
+                    dq.append(ns)
     return None
+
+
+def arrivals(fn, prog, target, start=0, limit=300000):
+    """what every self-consistent path has established about switched-on places when it reaches `target`:
+    -> list (one per distinct arrival state) of {place description: variant name taken}; [] when target is unreachable"""
+    return feasible_path(fn, prog, target, start, limit, _collect=True)
+
+
+def feasible_path(fn, prog, target, start=0, limit=300000, _collect=False):
+    """Is `target` reachable from `start` on a path that is consistent with what the path itself establishes?
+    Tracked along each path: (1) the variant of enum values built on it (`x = None`, `x = Some(..)`, moves) -- a later
+    switch on x's discriminant follows only that variant; (2) boolean constants assigned to locals; (3) the edge taken by a
+    switch on the discriminant of a place (`match self.state`) -- a later switch on the same place, with no store to it and
+    no call that receives its base in between, takes the same edge. -> an example path (list of blocks) or None.
+    Sound for pruning: a path is dropped only when two of its own branch decisions contradict each other."""
+    from .paths import norm_place, _is_enum_agg
+
+    def names_of(ty):
+        n = prog.variant_names(ty)
+        if not n and ty.startswith("core::option::Option<"):
+            n = {0: "None", 1: "Some"}
+        return n or {}
+    def canon(place):
+        """the place with leading derefs of single-definition reference temporaries resolved (`(*r)` with r = &p  ->  p)"""
+        pl = [place[0], list(place[1])]
+        for _ in range(10):
+            if not (pl[1] and pl[1][0][0] == "d") or 1 <= pl[0] <= fn.argc:
+                break
+            sd = fn.single_def(pl[0])
+            if sd is None or sd[2] != "assign":
+                break
+            r = sd[3]["r"]
+            if r[0] == "ref":
+                pl = [r[2][0], list(r[2][1]) + pl[1][1:]]
+            elif r[0] == "use" and r[1][0] in ("c", "m"):
+                pl = [r[1][1][0], list(r[1][1][1]) + pl[1]]
+            else:
+                break
+        return norm_place(pl)
+
+    def base_of(op):
+        """base local of what an operand (a reference) points into"""
+        if op[0] not in ("c", "m"):
+            return None
+        return canon([op[1][0], list(op[1][1]) + [["d"]]])[0]
+    s0 = (start, frozenset(), frozenset(), frozenset())
+    prev = {s0: None}
+    dq = deque([s0])
+    n = 0
+    rootinfo = {}
+    collected = []
+    while dq:
+        n += 1
+        if n > limit:
+            raise RuntimeError("feasibility exploration exceeded %d states" % limit)
+        state = dq.popleft()
+        b, V, K, R = state
+        if b == target and _collect:
+            out = {}
+            for root, lab in R:
+                ty, desc = rootinfo.get(root, ("", "?"))
+                nm = names_of(ty).get(lab, str(lab))
+                out[desc] = nm
+            collected.append(out)
+            continue
+        if b == target:
+            path = []
+            while state is not None:
+                path.append(state[0])
+                state = prev[state]
+            return list(reversed(path))
+        if fn.is_cleanup(b):
+            continue
+        Vd, Kd, Rd = dict(V), dict(K), dict(R)
+
+        def kill(local, projs=None):
+            for d in (Vd, Rd):
+                for k in [k for k in d if k[0] == local]:
+                    del d[k]
+            if projs is None or not projs:
+                Kd.pop(local, None)
+        for st in fn.blocks[b]["st"]:
+            if st.get("k") == "=":
+                D = norm_place(st["p"])
+                r = st["r"]
+                newv, newk = None, None
+                if r[0] == "agg" and r[1].get("k") == "adt" and r[1].get("variant") and _is_enum_agg(r[1]):
+                    newv = r[1]["variant"]
+                elif r[0] == "use" and r[1][0] in ("c", "m"):
+                    newv = Vd.get(norm_place(r[1][1]))
+                    if not r[1][1][1]:
+                        newk = Kd.get(r[1][1][0])
+                elif r[0] == "use" and r[1][0] == "k" and r[1][1].get("ty") == "bool":
+                    newk = 1 if str(r[1][1].get("v")) == "1" else 0
+                kill(D[0], D[1])
+                CD = canon(st["p"])
+                if CD[0] != D[0]:
+                    for k in [k for k in Rd if k[0] == CD[0]]:
+                        del Rd[k]
+                if newv is not None:
+                    Vd[D] = newv
+                if newk is not None and not D[1]:
+                    Kd[D[0]] = newk
+            elif st.get("k") == "setdiscr":
+                kill(st["p"][0], st["p"][1])
+        t = fn.blocks[b]["t"]
+        if t["k"] == "call":
+            if t.get("dest") is not None:
+                kill(t["dest"][0], t["dest"][1])
+            for a in t.get("args", []):
+                if a[0] in ("c", "m"):
+                    # a callee that receives the base of a remembered place may change it
+                    for k in [k for k in Rd if k[0] in (a[1][0], base_of(a))]:
+                        del Rd[k]
+                    for k in [k for k in Vd if k[0] == a[1][0] and k[1]]:
+                        del Vd[k]
+        only = None
+        root = None
+        if t["k"] == "switch":
+            info = fn.switch_info(b)
+            if info and info.get("kind") == "variant":
+                P = norm_place(info["place"])
+                names = names_of(info["ty"])
+                known = Vd.get(P)
+                P = canon(info["place"])
+                if known is not None:
+                    listed = {lab: names.get(lab) for _, lab in fn.succ(b) if lab != "otherwise"}
+                    only = {lab for lab, nm in listed.items() if nm == known} if known in listed.values() else {"otherwise"}
+                elif P in Rd:
+                    only = {Rd[P]}
+                else:
+                    root = P
+                    if P not in rootinfo:
+                        from . import decision as _decision
+                        rootinfo[P] = (info["ty"], _decision.describe_deep(fn, ["c", info["place"]], 6))
+            elif t.get("dty") == "bool" and t["discr"][0] in ("c", "m") and not t["discr"][1][1] and t["discr"][1][0] in Kd:
+                v = Kd[t["discr"][1][0]]
+                only = {lab for _, lab in fn.succ(b) if (lab == 0) == (v == 0)}
+        V2, K2 = frozenset(Vd.items()), frozenset(Kd.items())
+        for tb, lab in fn.succ(b):
+            if fn.is_cleanup(tb) or (only is not None and lab not in only):
+                continue
+            R2d = Rd
+            if root is not None:
+                R2d = dict(Rd)
+                R2d[root] = lab
+            ns = (tb, V2, K2, frozenset(R2d.items()))
+            if ns not in prev:
+                prev[ns] = state
+                dq.append(ns)
+    return collected if _collect else None
